@@ -193,21 +193,38 @@ Qed.
 Definition made_val (f : T -> option V * T) (w : world) : list N :=
   match fst (f (cb w)) with Some v => idV E v | None => [] end.
 
+(* the exit where the closure itself panics: the VacantEntry is alive while the
+   closure runs, so unwinding destroys its key, exactly once; the container is
+   untouched and NOTHING is lost *)
+Definition closure_panic_exit (k : K) (w w' : world) : Prop :=
+  self w' = self w /\ log w' = (log w ++ [EvCall 2]) ++ ev_drops (idK E k).
+
+Lemma closure_panic_exit_acct k (w w' : world) : closure_panic_exit k w w' -> acct E w w' (idK E k) [] [].
+Proof.
+  intros [Hs Hg]. unfold acct. rewrite Hs, Hg, dropped_log_drops, dropped_snoc_call. perm_ids.
+Qed.
+
 Lemma call_mk_then_vac_insert k f (w : world) :
   WF (self w) ->
-  wp (v <- call_mk f ;; vac_insert E debug k v)
+  wp (v <- on_unwind (unwind_key E k) (call_mk f) ;; vac_insert E debug k v)
      (fun i w' => cpostN E w (idK E k ++ made_val f w) [] w' /\ i < len (self w'))
-     (cpostP E w (idK E k ++ made_val f w)) w.
+     (fun w' => cpostP E w (idK E k ++ made_val f w) w' /\
+                (fst (f (cb w)) = None -> closure_panic_exit k w w')) w.
 Proof.
-  intros Hw. unfold made_val, call_mk. apply wp_bind. apply wp_bind. apply wp_emit.
+  intros Hw. unfold made_val, call_mk. apply wp_bind. apply wp_on_unwind. apply wp_bind. apply wp_emit.
   apply wp_cbo_eq. simp_w. destruct (f (cb w)) as [[v|] s]; cbn [fst snd].
   - set (w1 := with_cb _ s).
     assert (Hs : self w1 = self w) by reflexivity.
     assert (Hd : dropped (log w1) = dropped (log w)) by (unfold w1; simp_w; apply dropped_snoc_call).
     eapply wp_mono; [apply (vac_insert_acct k v w1); rewrite Hs; exact Hw | |]; cbn beta.
     + intros i w2 [H2 Hlt]. split; [|exact Hlt]. exact (cpostN_base E _ _ _ _ _ Hs Hd H2).
-    + intros w2 H2. exact (cpostP_base E _ _ _ _ Hs Hd H2).
-  - rewrite app_nil_r. apply cpostP_refl; [exact Hw | reflexivity | simp_w; apply dropped_snoc_call].
+    + intros w2 H2. split; [exact (cpostP_base E _ _ _ _ Hs Hd H2) | discriminate].
+  - apply (wp_cleans _ (idK E k)); [apply unwind_key_spec|]. simp_w.
+    intros w' Hs Hg.
+    assert (Hx : closure_panic_exit k w w') by (split; assumption).
+    split; [|intros _; exact Hx].
+    rewrite app_nil_r. apply (cpostP_exact E w w' (idK E k) []); [rewrite Hs; exact Hw | rewrite Hs; reflexivity |].
+    pose proof (closure_panic_exit_acct k w w' Hx) as HA. unfold acct in HA. perm_ids.
 Qed.
 
 Lemma occ_into_mut_acct i (w : world) :
@@ -222,14 +239,21 @@ Qed.
 Definition made_entry (e : @entry K) (f : T -> option V * T) (w : world) : list N :=
   match e with Occupied _ => [] | Vacant _ => made_val f w end.
 
+(* what holds on the panic exit of or_insert_with* when the closure is what panicked *)
+Definition entry_closure_exit (e : @entry K) (f : T -> option V * T) (w w' : world) : Prop :=
+  match e with
+  | Occupied _ => True
+  | Vacant k => fst (f (cb w)) = None -> closure_panic_exit k w w'
+  end.
+
 Lemma conserves_or_insert_with (e : @entry K) f (w : world) :
   WF (self w) -> entry_ok e (self w) ->
   wp (or_insert_with E debug e f)
      (fun i w' => cpostN E w (ids_entry e ++ made_entry e f w) [] w' /\ i < len (self w'))
-     (cpostP E w (ids_entry e ++ made_entry e f w)) w.
+     (fun w' => cpostP E w (ids_entry e ++ made_entry e f w) w' /\ entry_closure_exit e f w w') w.
 Proof.
-  intros Hw He. destruct e as [i|k]; cbn [or_insert_with entry_ok ids_entry made_entry app] in *.
-  - apply occ_into_mut_acct; assumption.
+  intros Hw He. destruct e as [i|k]; cbn [or_insert_with entry_ok ids_entry made_entry entry_closure_exit app] in *.
+  - eapply wp_mono; [apply occ_into_mut_acct; assumption | |]; cbn beta; auto.
   - apply call_mk_then_vac_insert. exact Hw.
 Qed.
 
@@ -238,10 +262,11 @@ Lemma conserves_or_insert_with_key (e : @entry K) (f : K -> T -> option V * T) (
   let made := match e with Occupied _ => [] | Vacant k => made_val (f k) w end in
   wp (or_insert_with_key E debug e f)
      (fun i w' => cpostN E w (ids_entry e ++ made) [] w' /\ i < len (self w'))
-     (cpostP E w (ids_entry e ++ made)) w.
+     (fun w' => cpostP E w (ids_entry e ++ made) w' /\
+                match e with Occupied _ => True | Vacant k => entry_closure_exit e (f k) w w' end) w.
 Proof.
-  intros Hw He. destruct e as [i|k]; cbn [or_insert_with_key entry_ok ids_entry app] in *; cbv zeta.
-  - apply occ_into_mut_acct; assumption.
+  intros Hw He. destruct e as [i|k]; cbn [or_insert_with_key entry_ok ids_entry entry_closure_exit app] in *; cbv zeta.
+  - eapply wp_mono; [apply occ_into_mut_acct; assumption | |]; cbn beta; auto.
   - apply call_mk_then_vac_insert. exact Hw.
 Qed.
 
@@ -256,14 +281,18 @@ Lemma conserves_or_insert_with_vacant k f vids (w : world) :
 Proof.
   intros Hf Hw. pose proof (conserves_or_insert_with (Vacant k) f w Hw I) as H.
   cbn [ids_entry made_entry] in H. unfold made_val in H.
-  destruct (Hf (cb w)) as (v & s' & Hfv & Hv). rewrite Hfv in H. cbn [fst] in H. rewrite Hv in H. exact H.
+  destruct (Hf (cb w)) as (v & s' & Hfv & Hv). rewrite Hfv in H. cbn [fst] in H. rewrite Hv in H.
+  eapply wp_mono; [exact H | |]; cbn beta; [auto | intros w' [H1 _]; exact H1].
 Qed.
 
 Lemma conserves_or_insert_with_occupied i f (w : world) :
   WF (self w) -> i < len (self w) ->
   wp (or_insert_with E debug (Occupied i) f)
      (fun j w' => cpostN E w [] [] w' /\ j < len (self w')) (cpostP E w []) w.
-Proof. intros Hw Hi. exact (conserves_or_insert_with (Occupied i) f w Hw Hi). Qed.
+Proof.
+  intros Hw Hi. eapply wp_mono; [exact (conserves_or_insert_with (Occupied i) f w Hw Hi) | |]; cbn beta;
+    [auto | intros w' [H1 _]; exact H1].
+Qed.
 
 Lemma conserves_or_insert_with_key_vacant k f vids (w : world) :
   (forall s, exists v s', f k s = (Some v, s') /\ idV E v = vids) ->
@@ -274,14 +303,18 @@ Lemma conserves_or_insert_with_key_vacant k f vids (w : world) :
 Proof.
   intros Hf Hw. pose proof (conserves_or_insert_with_key (Vacant k) f w Hw I) as H.
   cbn [ids_entry] in H. cbv zeta in H. unfold made_val in H.
-  destruct (Hf (cb w)) as (v & s' & Hfv & Hv). rewrite Hfv in H. cbn [fst] in H. rewrite Hv in H. exact H.
+  destruct (Hf (cb w)) as (v & s' & Hfv & Hv). rewrite Hfv in H. cbn [fst] in H. rewrite Hv in H.
+  eapply wp_mono; [exact H | |]; cbn beta; [auto | intros w' [H1 _]; exact H1].
 Qed.
 
 Lemma conserves_or_insert_with_key_occupied i f (w : world) :
   WF (self w) -> i < len (self w) ->
   wp (or_insert_with_key E debug (Occupied i) f)
      (fun j w' => cpostN E w [] [] w' /\ j < len (self w')) (cpostP E w []) w.
-Proof. intros Hw Hi. exact (conserves_or_insert_with_key (Occupied i) f w Hw Hi). Qed.
+Proof.
+  intros Hw Hi. eapply wp_mono; [exact (conserves_or_insert_with_key (Occupied i) f w Hw Hi) | |]; cbn beta;
+    [auto | intros w' [H1 _]; exact H1].
+Qed.
 
 (* ---------- A7. Entry::and_modify ---------- *)
 Lemma call_modf_acct (f : modf_t) i (w : world) :
